@@ -353,6 +353,13 @@ def _fail_pass(ctx, R, NR, b):
                     g = True
             ctx.check(g, "NFA-LM", b, "dead-iff-output:" + tag, b.loc(bi, si),
                       "the dequeued state fails to DEAD exactly when it has an output")
+            every = True
+            for sbi, stj, d in sw:
+                arm = bool_arms(stj)[0] if d[0] == "call" else opt_arms(stj)[0]
+                if b.edge_guards((sbi, arm), bi) and ebi in b.reach(arm, avoid_blocks=[bi]) and arm != bi:
+                    every = False
+            ctx.check(every, "NFA-LM", b, "dead-whenever-output:" + tag, b.loc(bi, si),
+                      "EVERY state that has an output must fail to DEAD (no extra condition)")
             ctx.check(ebi in b.reachable_from(bi) and bi not in b.reachable_from(ebi, avoid=[qbi]), "NFA-LM", b, "dead-before-children:" + tag, b.loc(bi, si),
                       "the state's own DEAD link must be set before its children are processed")
         else:
@@ -443,13 +450,18 @@ def rule_add(ctx, R, NR, rules=None):
     for vw, bi in errcalls.get("duplicate_pattern", []):
         if vw is not root:
             continue
+        cands = []
         for sbi in sorted(b.live_blocks()):
             t = b.blocks[sbi]["term"]
             if t["k"] == "switch":
                 succs = b.succ(sbi)
                 reach = [bi in b.reachable_from(s) for s in succs]
                 if any(reach) and not all(reach) and b.dominates(sbi, bi):
-                    dup_guards.append(sbi)
+                    cands.append(sbi)
+        # the guard of this error site = the nearest such branch (dominated by all the others)
+        for g in cands:
+            if all(b.dominates(o, g) for o in cands):
+                dup_guards.append(g)
     dup_guards = sorted(set(dup_guards))
     # nearest guard = the one dominated by all others (used for the len rule)
     dup_guard = None
